@@ -54,7 +54,7 @@ def worker_init() -> None:
 
     import gallia.command  # noqa: F401
     from gallia.services.uds.core import service
-    from gallia.services.uds.core.client import UDSClient
+    from gallia.services.uds.core.client import UDSClient, UDSRequestConfig
     from gallia.services.uds.core.exception import MissingResponse, UDSException
     from gallia.transports.doip import DoIPTransport
     from gallia.transports.hsfz import HSFZTransport
@@ -64,7 +64,7 @@ def worker_init() -> None:
     logging.disable(logging.CRITICAL)
     G.update(
         tcp=TCPLinesTransport, unix=UnixLinesTransport, doip=DoIPTransport, hsfz=HSFZTransport,
-        UDSClient=UDSClient, service=service, MissingResponse=MissingResponse, UDSException=UDSException,
+        UDSClient=UDSClient, UDSRequestConfig=UDSRequestConfig, service=service, MissingResponse=MissingResponse, UDSException=UDSException,
     )
 
 
@@ -225,6 +225,10 @@ def build(item: dict[str, Any], box: dict[str, Any]) -> Any:
             box["client"] = client
             # the listener accepts again `delay` seconds after the cut
             net_watch()
+            if item.get("two"):
+                # a first request without retries runs into the loss; a later request on the same client has retries
+                cfg0 = G["UDSRequestConfig"](max_retry=0)
+                await op("request0", client.request(G["service"].ReadDataByIdentifierRequest(0xF190), cfg0))
             r = await op("request", client.request(G["service"].ReadDataByIdentifierRequest(0xF190)))
             box["reply"] = r
             await op("close", client.transport.close())
@@ -557,6 +561,13 @@ def items(tier: str, seed: int) -> list[Any]:
                         out.append(
                             ({"proto": proto, "cut": cut, "kind": kind, "mode": "B", "timeout": 2.0, "delay": delay, "max_retry": mr}, min(bound, 1), cap)
                         )
+    # a first request without retries runs into the loss (and may leave a closed transport behind); the next request of the
+    # same client has retries and the peer is back at once
+    for proto in ("tcp", "unix", "doip", "hsfz"):
+        L = len(full_stream(proto))
+        for cut in sorted({0, L // 3, L // 2, L - 1}):
+            for kind in ("eof", "rst", "silence"):
+                out.append(({"proto": proto, "cut": cut, "kind": kind, "mode": "B", "timeout": 2.0, "delay": 0.0, "max_retry": 2, "two": True}, 0, cap))
     # flaky restart: the first connection(s) after the outage are accepted and then dropped / reset / ignored
     for proto in ("doip", "hsfz", "tcp"):
         L = len(full_stream(proto))
